@@ -21,6 +21,30 @@ CHECKS = {
         note=PAR_NOTE,
         design_ref="1.1, 1.2, 2/C01",
     ),
+    "C04": dict(
+        category="model_checking",
+        engine="E1-pysched + E2-virtual-backend",
+        technique="stateless model checking (pre-emption / deviation bounded exploration of all interleavings, completion orders and late completions) of call programs on one real Parallel object",
+        text="Programs of 2-3 calls on one Parallel object over {ok, failing task at several positions, failing input iterator, never-completing task + timeout}, inside and outside a with block, are executed under every schedule within the bounds, with a pool-like environment and with a zombie environment whose late completions may be withheld and delivered at any later point (including inside the next call). Oracle: the failing call raises the exception of one of its executed tasks / of the iterator / TimeoutError, never returns; every call terminates (deadlock and hang verdicts of the scheduler); the following ok-call returns exactly its own results, each task once, and no batch of an earlier call is submitted during a later one.",
+        note=PAR_NOTE,
+        design_ref="2/C04",
+    ),
+    "C09": dict(
+        category="model_checking",
+        engine="E1-pysched + E2-virtual-backend",
+        technique="stateless model checking with safety monitors: invariants evaluated at every take/submit/finish event of every explored interleaving; exhaustive grammar enumeration for eval_expr",
+        text="The input iterable is an instrumented generator whose body is a scheduling region. For inputs longer than every look-ahead boundary, all schedules within the bounds are executed and the invariants - never two actors inside the input, in-flight batches <= pre_dispatch, look-ahead <= n_jobs*batch, taken-ahead-of-completed bounded independently of N, 'all' pulls everything up front in the caller, no item taken after a registered failure / close() / drop (modulo a slice already past its abort check) - are checked on every event. eval_expr is compared with Python arithmetic over a 3-level grammar and must reject everything else.",
+        note=PAR_NOTE,
+        design_ref="2/C09",
+    ),
+    "C16": dict(
+        category="model_checking",
+        engine="E1-pysched + E2-virtual-backend",
+        technique="stateless model checking of consumer programs on the output generator; promptness decided as reachability under a withholding environment (hang verdict = result waited for a later task)",
+        text="Consumer programs (exhaust; pull one by one while the environment completes only what the requested result may depend on; close / drop / leave the with block after k results followed by a fresh call; a second call during an unfinished run) on return_as='generator' and 'generator_unordered' are explored under all schedules within the bounds. Oracle: submission order (ordered) or completion-registration order with each result once (unordered); every pull terminates under the withholding environment; abandonment terminates, stops dispatch, and the next call returns exactly its own results; overlapping call raises RuntimeError and leaves the first run intact.",
+        note=PAR_NOTE,
+        design_ref="2/C16",
+    ),
     "C07": dict(
         category="exploration",
         engine="E4-enumerators",
